@@ -283,6 +283,112 @@ def replay_consumer(kit, shapes, beh):
             'shapes': {str(t): {'resp': s[0], 'reps': s[1], 'direct': s[2]} for t, s in shapes.items()}}
 
 
+# transactions whose response and reports really race (queued processing: the reports come from the provider's worker
+# thread).  With direct processing the provider sends the report and waits for the consumer's answer before it
+# responds (Invocation.tla: ResponseArrives is enabled only after the reports), nothing to interleave there.
+_Q = lambda last: ('Wait', ['Wait', 'Start', last], False)   # noqa: E731
+RACE_SHAPES = [{1: _Q('Fin')}, {1: _Q('Fail')}, {1: _Q('Fin'), 2: _Q('FinMod')}]
+RACE_SHAPES_THOROUGH = [{1: _Q('Cnclld')}, {1: _Q('Fin'), 2: _Q('Fail'), 3: _Q('FinMod')}]
+
+
+def consumer_race(run, kit):
+    """The consumer's OperationsManager with its callers on REAL threads: the notification thread hands in the
+    OperationInvokedReports of the transactions in order, one thread per transaction calls the operation (= receives
+    the response).  All interleavings at the granularity of the manager's lock (Threads.tla; the code after a release
+    is a step of its own) are executed; each execution yields the same kind of record as the sequential replay."""
+    from sdc11073.consumer.operations import OperationsManager
+
+    from verif.sched import Scheduler, TracedLock
+    from verif.threads_engine import _SchedRef, enumerate_schedules
+
+    def mk(shapes, ref):
+        mgr = OperationsManager(kit.reader, 'verif')
+        mgr._transactions_lock = TracedLock(mgr._transactions_lock, 'cons', ref)   # noqa: SLF001
+        futures, errors = {}, []
+        reports = [(t, i + 1, kit.report(100 + t, st)) for t, sh in sorted(shapes.items()) for i, st in enumerate(sh[1])]
+        responses = {t: kit.response(100 + t, sh[0]) for t, sh in shapes.items()}
+
+        def notifier():
+            for t, i, msg in reports:
+                try:
+                    mgr.on_operation_invoked_report(msg)
+                except Exception as ex:  # noqa: BLE001
+                    errors.append(f'Report {t}/{i}: {type(ex).__name__}')
+
+        def caller(t):
+            def fn():
+                try:
+                    futures[t] = mgr.call_operation(_FakeClient(responses[t]), None)
+                except Exception as ex:  # noqa: BLE001
+                    errors.append(f'Response {t}: {type(ex).__name__}')
+            return fn
+        fns = {1: notifier}
+        for k, t in enumerate(sorted(shapes)):
+            fns[2 + k] = caller(t)
+        return mgr, fns, futures, errors, reports
+
+    out = []
+    for si, shapes in enumerate(RACE_SHAPES if run.quick else RACE_SHAPES + RACE_SHAPES_THOROUGH):
+        ref = _SchedRef(Scheduler(record_only=True))
+        programs = {}
+        for tid in range(1, 2 + len(shapes)):
+            # each thread's program, recorded alone on a fresh manager
+            _mgr, fns, _f, _e, _r = mk(shapes, ref)
+            ref.s = Scheduler(record_only=True)
+            ref.s.run_free(tid, fns[tid])
+            programs[tid] = list(ref.s.programs[tid])
+        run.note(f'consumer_thread_programs_{si}', {str(t): [f"{e['op']}:{e['lock']}" for e in p] for t, p in programs.items()})
+        limit = None if len(shapes) == 1 else run.pick(150, 1500)
+        scheds = enumerate_schedules(run, f'c09cons_{si}', programs, sorted(programs), limit=limit, seed=run.seed + si)
+        run.count('consumer_thread_schedules', len(scheds))
+        for sc in scheds:
+            mgr, fns, futures, errors, reports = mk(shapes, ref)
+            s = Scheduler()
+            ref.s = s
+            threads = {tid: s.spawn(tid, fn) for tid, fn in fns.items()}
+            try:
+                for tid in sc['sched']:
+                    s.grant(tid)
+                for tid in threads:
+                    s.wait_parked_or_finished(tid)
+                    if tid not in s.finished:
+                        raise MachineryError(f'consumer thread {tid} still has events after the schedule ended')
+            finally:
+                with s.cv:
+                    s.failed = s.failed or 'run over'
+                    s.cv.notify_all()
+            for th in threads.values():
+                th.join(timeout=5)
+            errors += [f'thread {t}: {e!r}'[:120] for t, e in sorted(getattr(s, 'errors', {}).items())]
+            # the order in which the calls entered the manager's lock
+            nrep, events = 0, []
+            order = sorted(shapes)
+            for tid, ev in s.events:
+                if ev['op'] != 'acq':
+                    continue
+                if tid == 1:
+                    t, i, _m = reports[min(nrep, len(reports) - 1)]
+                    nrep += 1
+                    events.append({'act': 'Report', 't': t, 'i': i, 'done_after': []})
+                else:
+                    events.append({'act': 'Response', 't': order[tid - 2], 'i': 0, 'done_after': []})
+            final = {}
+            for t in shapes:
+                f = futures.get(t)
+                if f is None or not f.done():
+                    final[str(t)] = {'done': False, 'state': 'none', 'parts': []}
+                else:
+                    r = f.result()
+                    final[str(t)] = {'done': True, 'state': r.InvocationInfo.InvocationState.value,
+                                     'parts': [p.InvocationInfo.InvocationState.value for p in r.report_parts]}
+            out.append([{'act': 'Init'},
+                        {'act': 'Consumer', 'events': events, 'final': final, 'errors': errors, 'threads': True,
+                         'schedule': list(sc['sched']),
+                         'shapes': {str(t): {'resp': x[0], 'reps': x[1], 'direct': x[2]} for t, x in shapes.items()}}])
+            run.distinct_traces.add(('cons-threads', si, tuple(sc['sched'])))
+    return out
+
+
 def concurrent_requests(run):
     """Transaction ids under concurrent requests: all interleavings (Threads.tla, lock granularity incl. the lock of the
     id counter) of two / three operation requests on real threads; judged by ThreadsTrace (transaction_ids_*)."""
@@ -343,6 +449,7 @@ def check(run, replay_path=None):
         for beh in cbehs:
             ctraces.append([{'act': 'Init'}, replay_consumer(kit, SHAPES[name], beh)])
             run.distinct_traces.add((name, tuple((e['act'], e['t']) for e in beh)))
+    ctraces += consumer_race(run, kit)
     traces = ptraces + ctraces
     rejects = tracecheck.validate(run, 'InvocationTrace', 'InvocationTrace.cfg', traces, chunk=2500)
     run.count('provider_requests', sum(len(t) - 1 for t in ptraces))
@@ -362,8 +469,12 @@ def check(run, replay_path=None):
             shapes = '|'.join(f"{s['resp']}:{'-'.join(s['reps'])}" for s in rec['shapes'].values())
             descr = {'check': 'invocation', 'part': 'consumer', 'clause': clause, 'shapes': shapes}
             what = f'{clause}: shapes {shapes} order {order} final {rec["final"]} errors {rec["errors"]}'
+            if rec.get('threads'):
+                descr['threads'] = True
+                what += f' (real threads, schedule {rec["schedule"]})'
         if run.is_known(descr):
             continue
         run.violation(descr, what, {'trace': traces[ti], 'failing_record': li})
-    run.assumptions += ['consumer part: handlers of the OperationsManager are atomic under its lock, so sequential replay of an '
-                        'interleaving is exact', 'provider part: handlers are scripted and do not touch the MDIB']
+    run.assumptions += ['consumer part: the sequential replay of an interleaving takes the handlers of the OperationsManager as '
+                        'atomic; that they are is checked by the executions on real threads (consumer_race) for one and two '
+                        'transactions', 'provider part: handlers are scripted and do not touch the MDIB']
